@@ -456,7 +456,6 @@ func callRefComplete(c *Ctx, rule string) {
 	r.Ob(rule, "Script.Check publishes the recorded call sites as Script.CallRef", t.Pos(chk.Pos()), okC, "s.CallRef = ctx.callRef")
 }
 
-
 // walkerChainRules: the error-chain obligations inside a use() walker f (and the in-package helpers it calls):
 // ChainAppend is applied to a fresh copy, and the position appended / reported is the current call site's.
 func walkerChainRules(c *Ctx, f *ssa.Function, recCalls []*ssa.Call, ruleCopy, rulePos string) {
